@@ -90,6 +90,12 @@ def gen_c02(rnd, n, thorough=False):
             lname, layout = 'three', list(FIXED_LAYOUTS['three'])
         k = len(layout)
         m, xff = rnd.pick(METHODS), rnd.pick(XFF_VALID)
+        ratio = layout[1][0] // layout[0][0]
+        if rnd.chance(0.4):
+            # a threshold that is exactly reachable: float32(j/ratio), its neighbours, decimal fractions
+            j = rnd.randint(1, ratio)
+            xff = rnd.pick([f32bits(j / ratio), f32bits(j / ratio) + rnd.pick([-1, 1]) if j < ratio else f32bits(1.0),
+                            f32bits(rnd.pick([0.1, 0.2, 0.3, 0.4, 0.6, 0.7, 0.8, 0.9]))])
         nan_ok = m not in (4, 5)
         now = clock_in_domain(rnd, layout)
         S0, N0 = layout[0]
@@ -104,7 +110,7 @@ def gen_c02(rnd, n, thorough=False):
                 lines.append("upd f %d %d %016x %d" % (rnd.pick([-1, 0]), now - age, value(rnd, nan_ok), now))
                 tags['ops']['upd'] = tags['ops'].get('upd', 0) + 1
             else:
-                shape = rnd.pick(['dense', 'sparse', 'dups', 'lap'])
+                shape = rnd.pick(['dense', 'sparse', 'dups', 'lap', 'exact_k', 'exact_k'])
                 pts = []
                 if shape == 'dense':
                     span = rnd.randint(1, N0)
@@ -115,6 +121,14 @@ def gen_c02(rnd, n, thorough=False):
                     t = now - rnd.randint(0, R0 - 1)
                     pts = [(t, value(rnd, nan_ok)) for _j in range(rnd.randint(2, 4))]
                     pts += [(now - rnd.randint(0, R0 - 1), value(rnd, nan_ok))]
+                elif shape == 'exact_k':   # exactly j known finer slots inside one coarser interval
+                    S1 = layout[1][0]
+                    base = (now // S1) * S1 - S1 * rnd.randint(0, max(R0 // S1 - 1, 0))
+                    slots = [base + i * S0 for i in range(ratio) if now - R0 < base + i * S0 <= now]
+                    if slots:
+                        pts = [(t, value(rnd, nan_ok)) for t in rnd.sample(slots, rnd.randint(1, len(slots)))]
+                    else:
+                        pts = [(now, value(rnd, nan_ok))]
                 else:   # two points one lap apart: the later one empties the slot of the earlier
                     t = now - rnd.randint(0, R0 - 1)
                     pts = [(t, value(rnd, nan_ok)), (t + R0, value(rnd, nan_ok))]
